@@ -224,6 +224,39 @@ def _norm(id_: str) -> str:
     return f"{n}-v{int(v)}" if v.isdigit() else id_
 
 
+# What each shipped id is documented to be (comments next to the registrations in jumanji/__init__.py, README table,
+# docs/environments/*.md "Registered Versions"): the class with its default arguments, except the two ids below.
+DOCUMENTED_CLASS = {
+    "Game2048-v1": "Game2048", "GraphColoring-v0": "GraphColoring", "Minesweeper-v0": "Minesweeper", "RubiksCube-v0": "RubiksCube",
+    "RubiksCube-partly-scrambled-v0": "RubiksCube", "Sudoku-v0": "Sudoku", "Sudoku-very-easy-v0": "Sudoku", "BinPack-v2": "BinPack",
+    "FlatPack-v0": "FlatPack", "JobShop-v0": "JobShop", "Knapsack-v1": "Knapsack", "Tetris-v0": "Tetris", "Cleaner-v0": "Cleaner",
+    "Connector-v2": "Connector", "MMST-v0": "MMST", "CVRP-v1": "CVRP", "MultiCVRP-v0": "MultiCVRP", "Maze-v0": "Maze",
+    "RobotWarehouse-v0": "RobotWarehouse", "Snake-v1": "Snake", "TSP-v1": "TSP", "Sokoban-v0": "Sokoban", "PacMan-v1": "PacMan",
+    "SlidingTilePuzzle-v0": "SlidingTilePuzzle", "LevelBasedForaging-v0": "LevelBasedForaging",
+}
+
+
+def documented_env(id_: str) -> Any:
+    """The environment the documentation describes for a shipped id, constructed directly (not through the registry)."""
+    import os
+
+    import jumanji
+    from jumanji import environments as E
+
+    cls = getattr(E, DOCUMENTED_CLASS[id_])
+    if id_ == "RubiksCube-partly-scrambled-v0":  # "faces of size 3x3 yet only 7 scrambles at reset time", time limit 20
+        from jumanji.environments.logic.rubiks_cube.generator import ScramblingGenerator
+
+        return cls(time_limit=20, generator=ScramblingGenerator(cube_size=3, num_scrambles_on_reset=7))
+    if id_ == "Sudoku-very-easy-v0":  # "1000 puzzles of very-easy difficulty (>46 clues)"
+        from jumanji.environments.logic.sudoku import data as sd
+        from jumanji.environments.logic.sudoku.generator import DatabaseGenerator
+
+        root = os.path.join(os.path.dirname(os.path.abspath(jumanji.__file__)), "environments", "logic", "sudoku", "data")
+        return cls(generator=DatabaseGenerator(database=np.load(os.path.join(root, sd.DATABASES["very-easy"]))))
+    return cls()
+
+
 def shipped_check(stats: Stats, seed: int) -> None:
     """All shipped ids instantiate (Sokoban through the DOWNLOAD stub); two make(id) calls give equal
     specs and identical behaviour on a short shared run."""
@@ -247,24 +280,39 @@ def shipped_check(stats: Stats, seed: int) -> None:
         for sp in ("observation_spec", "action_spec", "reward_spec", "discount_spec"):
             if repr(getattr(e1, sp)) != repr(getattr(e2, sp)):
                 raise Violation("C18", "registry", "shipped", "two_makes_unequal_specs", f"{id_}: {sp} differs between two make() calls")
+        # the id maps to the documented configuration: same class, equal specs and identical behaviour as the
+        # environment constructed directly with the documented arguments
+        e3 = documented_env(id_) if id_ in DOCUMENTED_CLASS else None
+        if e3 is not None:
+            if type(e1) is not type(e3):
+                raise Violation("C18", "registry", "shipped", "shipped_id_builds_other_class", f"make({id_!r}) is a {type(e1).__name__}, documented {type(e3).__name__}")
+            for sp in ("observation_spec", "action_spec", "reward_spec", "discount_spec"):
+                if repr(getattr(e1, sp)) != repr(getattr(e3, sp)):
+                    raise Violation("C18", "registry", "shipped", "shipped_id_differs_from_documented_configuration",
+                                    f"{id_}: {sp} of make(id) differs from the directly constructed documented configuration")
         key = jax.random.PRNGKey(int(rng.integers(0, 2**31 - 1)))
-        s1, t1 = jax.jit(e1.reset)(key)
-        s2, t2 = jax.jit(e2.reset)(key)
-        st1, st2 = jax.jit(e1.step), jax.jit(e2.step)
-        for k in range(4):
-            d = util.tree_diff(util.to_np((s1, t1)), util.to_np((s2, t2)))
-            if d:
-                raise Violation("C18", "registry", "shipped", "two_makes_behave_differently", f"{id_}: step {k}: {d[:2]}")
+        envs_ = [e1, e2] + ([e3] if e3 is not None else [])
+        cur = [jax.jit(e.reset)(key) for e in envs_]
+        steps = [jax.jit(e.step) for e in envs_]
+        n_steps = 4 if id_ not in ("RubiksCube-v0", "RubiksCube-partly-scrambled-v0") else 24  # past the documented time limit of 20
+        for k in range(n_steps):
+            for j, cls_ in ((1, "two_makes_behave_differently"), (2, "shipped_id_differs_from_documented_configuration")):
+                if j < len(cur):
+                    d = util.tree_diff(util.to_np(cur[0]), util.to_np(cur[j]))
+                    if d:
+                        raise Violation("C18", "registry", "shipped", cls_, f"{id_}: step {k}: {d[:2]}")
+            t1 = cur[0][1]
             a = e1.action_spec.generate_value()
             m = getattr(t1.observation, "action_mask", None)
             if m is not None and k > 0:
                 m = np.asarray(m)
                 if m.any() and m.ndim == 1:
                     a = jnp.asarray(int(np.flatnonzero(m)[0]), dtype=e1.action_spec.dtype)
-            s1, t1 = st1(s1, a)
-            s2, t2 = st2(s2, a)
+            cur = [st(c[0], a) for st, c in zip(steps, cur)]
             stats.steps += 1
         stats.check("shipped_ids_made_twice")
+        if e3 is not None:
+            stats.check("shipped_ids_vs_documented_configuration")
 
 
 def run_task(prop: Any, task: Dict[str, Any]) -> Dict[str, Any]:
